@@ -278,9 +278,9 @@ func main() {
 		prop = "C01"
 	}
 	rules := map[string]string{
-		"C01": "random CFL assets (1-4 flows, 0-6 nodes, cycles, self/mutual/terminal enters, empty flows, waits with/without timeout) x trigger (manual/msg/flow_action) x 0-8 resumes (msg/timeout/expiration/dial); non-trivial = the history has >=2 sprints and >=2 runs, or took a failure/expiry/terminal/limit branch; distinct = distinct canonical history JSON",
+		"C01": "fixed corpus of minimal histories of the repaired defects first; then random CFL assets (3/4: 1-4 flows, 0-6 nodes, cycles, self/mutual/terminal enters, empty flows, waits with/without timeout; 1/4: enter_flow chains 3-6 levels deep whose deepest flow waits, fails, enters itself or closes the cycle) x trigger (manual/msg/flow_action) x 0-8 resumes (msg/timeout/expiration/dial); a history whose first sprint does not wait is redrawn once; non-trivial = the history has >=2 sprints and >=2 runs, or took a failure/expiry/terminal/limit branch; distinct = distinct canonical history JSON",
 		"C05": "as C01 with adversarial graphs (self-loops, default-to-self routers, A enters B enters A, terminal loops) and small option values; non-trivial = some sprint came within 2 of the step limit or hit it, or a text was cut at a length limit, or the resume limit was reached",
-		"C10": "as C01 plus faults in the asset store between sprints (flow deleted, waiting node deleted / without router / without wait, timeout removed/added, resume limit lowered), resumes of every type against every wait, resumes of finished sessions, tampered sessions without a waiting run; non-trivial = at least one resume was rejected with an engine error or ended in a failed session",
+		"C10": "as C01 (first sprint redrawn up to 5 times until it waits; 15% dial, 15% wait_timeout, 5% run_expiration resumes) plus faults in the asset store between sprints (flow deleted, waiting node deleted / without router / without wait, timeout removed/added, resume limit lowered), resumes of every type against every wait, resumes of finished sessions, tampered sessions without a waiting run; non-trivial = at least one resume was rejected with an engine error or ended in a failed session",
 	}
 	res := hx.NewResult(o, rules[prop])
 	rnd := hx.NewRand(o.Seed)
@@ -342,7 +342,23 @@ func main() {
 		}
 	}
 
-	for i := 0; i < n; i++ {
+	// corpus first: the minimal histories of the defects found with this check (they are repaired in /repo:
+	// `fixed:` lines of KNOWN_FINDINGS.txt; if a defect returns these report it in every run, whatever the seed)
+	for ci, ch := range corpus(prop) {
+		resetSources(int64(7000 + ci))
+		h := &History{Assets: ch.Assets, Trigger: ch.Trigger}
+		w := &world{}
+		first := w.start(h)
+		if calls := runHistory(prop, nil, h, w, first, h.Assets, res, ch.Ops); calls != nil {
+			emit(1+ci, h, calls)
+		}
+		res.Dist("corpus")
+		if hung {
+			break
+		}
+	}
+
+	for i := 0; i < n && !hung; i++ {
 		r := rnd.Fork(fmt.Sprintf("case%d", i))
 		resetSources(int64(o.Seed)*100003 + int64(i))
 		// histories that end in their first sprint say little about resumes: C10 (and, less strongly,
@@ -447,4 +463,77 @@ func caseCoq(h *History, calls []*CallObs) string {
 	}
 	return fmt.Sprintf("{| hc_assets := %s;\n  hc_trigger := %s; hc_flow := %s;\n  hc_ops := [%s];\n  hc_obs := [%s]%%N |}",
 		h.Assets.Coq(), trig, hx.N(h.Trigger.Flow), strings.Join(ops, ";\n    "), strings.Join(obs, ";\n    "))
+}
+
+// corpus: hand-written minimal histories (DESIGN.md F1, F5 and the pushed-flow defect found in round 2)
+type corpusCase struct {
+	Assets  *Assets
+	Trigger Trigger
+	Ops     []Op
+}
+
+func corpus(prop string) []corpusCase {
+	std := Options{MaxSteps: 100, MaxResumes: 500, MaxTemplateChars: 10000, MaxResultChars: 640}
+	enter := func(fl int, terminal bool) Action { return Action{Kind: "enter_flow", Flow: fl, Terminal: terminal} }
+	plain := func(id int, acts ...Action) *Node {
+		return &Node{ID: id, Actions: acts, Exits: []Exit{{ID: id*10 + 1}}}
+	}
+	waitNode := func(id int) *Node {
+		return &Node{ID: id, Exits: []Exit{{ID: id*10 + 1}},
+			Router: &Router{Default: 0, Cats: []Category{{Name: "C0", Exit: id*10 + 1}}, Wait: &Wait{}, Result: "r0"}}
+	}
+	var out []corpusCase
+	// F1: the step limit is hit on the first node of a freshly pushed run (MaxSteps = 1)
+	o1 := std
+	o1.MaxSteps = 1
+	out = append(out, corpusCase{Assets: &Assets{Opts: o1, Flows: []*Flow{
+		{ID: 1, Nodes: []*Node{plain(101, enter(2, false))}},
+		{ID: 2, Nodes: []*Node{plain(201, Action{Kind: "send_msg", Text: "a"})}}}},
+		Trigger: Trigger{Kind: "manual", Flow: 1}, Ops: []Op{}})
+	// F1b: ... and on the parent's next node after the child returned (MaxSteps = 2)
+	o2 := std
+	o2.MaxSteps = 2
+	p := plain(101, enter(2, false))
+	p.Exits[0].Dest = 102
+	out = append(out, corpusCase{Assets: &Assets{Opts: o2, Flows: []*Flow{
+		{ID: 1, Nodes: []*Node{p, plain(102, Action{Kind: "send_msg", Text: "b"})}},
+		{ID: 2, Nodes: []*Node{plain(201, Action{Kind: "send_msg", Text: "a"})}}}},
+		Trigger: Trigger{Kind: "manual", Flow: 1}, Ops: []Op{}})
+	// pushed flow survives a failed action: P enters C; C's node = [enter_flow D, enter_flow <missing>]; D waits
+	out = append(out, corpusCase{Assets: &Assets{Opts: std, Flows: []*Flow{
+		{ID: 1, Nodes: []*Node{plain(101, enter(2, false))}},
+		{ID: 2, Nodes: []*Node{plain(201, enter(3, false), enter(9, false))}},
+		{ID: 3, Nodes: []*Node{waitNode(301)}}}},
+		Trigger: Trigger{Kind: "manual", Flow: 1}, Ops: []Op{{Kind: "msg", Text: "a"}, {Kind: "msg", Text: "b"}}})
+	// ... and the same with a child that ends at once
+	out = append(out, corpusCase{Assets: &Assets{Opts: std, Flows: []*Flow{
+		{ID: 1, Nodes: []*Node{plain(101, enter(2, false))}},
+		{ID: 2, Nodes: []*Node{plain(201, enter(3, false), enter(9, false))}},
+		{ID: 3, Nodes: []*Node{plain(301, Action{Kind: "send_msg", Text: "a"})}}}},
+		Trigger: Trigger{Kind: "manual", Flow: 1}, Ops: []Op{}})
+	if prop == "C05" {
+		// F5: limits below the length of the ellipsis / below zero
+		for _, lim := range []int{0, 1, 2} {
+			o := std
+			o.MaxTemplateChars = lim
+			out = append(out, corpusCase{Assets: &Assets{Opts: o, Flows: []*Flow{
+				{ID: 1, Nodes: []*Node{plain(101, Action{Kind: "send_msg", Text: "hello"}, Action{Kind: "set_run_result", Name: "r0", Text: "héllo wörld"})}}}},
+				Trigger: Trigger{Kind: "manual", Flow: 1}, Ops: []Op{}})
+		}
+		o := std
+		o.MaxResultChars = -1
+		out = append(out, corpusCase{Assets: &Assets{Opts: o, Flows: []*Flow{
+			{ID: 1, Nodes: []*Node{plain(101, Action{Kind: "set_run_result", Name: "r0", Text: "abc"}), waitNode(102)}}}},
+			Trigger: Trigger{Kind: "manual", Flow: 1}, Ops: []Op{{Kind: "msg", Text: "zz"}}})
+	}
+	if prop == "C10" {
+		// a rejected resume on a session that carries an input (msg trigger, then an accepted msg resume)
+		n1 := waitNode(101)
+		n1.Exits[0].Dest = 102
+		out = append(out, corpusCase{Assets: &Assets{Opts: std, Flows: []*Flow{
+			{ID: 1, Nodes: []*Node{plain(100, Action{Kind: "send_msg", Text: "a"}), n1, waitNode(102)}}}},
+			Trigger: Trigger{Kind: "msg", Text: "b", Flow: 1},
+			Ops:     []Op{{Kind: "dial"}, {Kind: "msg", Text: "a"}, {Kind: "timeout"}, {Kind: "dial"}, {Kind: "msg", Text: "c"}, {Kind: "msg", Text: "c"}}})
+	}
+	return out
 }
